@@ -286,10 +286,13 @@ def derived_closures(ctx):
                 except Exception:
                     continue            # rejected / failing combinations are C05's and C01's findings
                 ctx.count("derived-closures", key)
-                both = L.is_complex(B.input_dtype) and L.is_complex(B.output_dtype)
+                # the derived operator acts on the space of its operands: on the complex pass it is exercised with complex
+                # vectors and complex scalars even if it DECLARES a real dtype (a declared-dtype defect is C12's matter;
+                # dropping the imaginary part of its argument is a linearity defect)
                 for vname, fn, shp, vdt in views:
-                    if blackbox(ctx, None, fn, shp, vdt, False, key, "derived:" + name, f"{vname} of the {fname} form",
-                                cplx=both and L.is_complex(vdt)):
+                    use_dt = dt if L.is_complex(dt) else vdt
+                    if blackbox(ctx, None, fn, shp, use_dt, False, key, "derived:" + name, f"{vname} of the {fname} form",
+                                cplx=L.is_complex(dt)):
                         break
 
 
